@@ -201,3 +201,50 @@ Proof.
   exists c1, c2. repeat split; congruence.
 Qed.
 End Spec.
+
+(* ---------- the items behind the correspondence, and when two semantics agree ---------- *)
+Section Agree.
+Context {Tr P : Type} (tr_eqb : Tr -> Tr -> bool) (act : Tr -> P -> P).
+Hypothesis tr_eqb_act : forall a b, tr_eqb a b = true -> forall p, act a p = act b p.
+
+Theorem two_runs_items dic0 tinfo fuel key fd1 fg1 fd2 fg2 sa sb ks1 sa' ks2 sb' :
+  norefs dic0 -> lookup key dic0 <> None ->
+  wf act sa -> based dic0 sa -> wf act sb -> based dic0 sb ->
+  pot_fill_tr tr_eqb fuel fd1 fg1 dic0 tinfo key sa = Ok (ks1, sa') ->
+  pot_fill_tr tr_eqb fuel fd2 fg2 dic0 tinfo key sb = Ok (ks2, sb') ->
+  exists its, spec act fuel dic0 tinfo key = Some its /\
+              Forall2 (matches act sa') ks1 its /\ Forall2 (matches act sb') ks2 its.
+Proof.
+  intros Hnr Hk Hwa Hba Hwb Hbb H1 H2.
+  destruct (pot_fill_tr_spec tr_eqb act tr_eqb_act fd1 fg1 dic0 tinfo Hnr fuel key sa ks1 sa' Hwa Hba Hk H1)
+    as [_ [_ [its1 [S1 M1]]]].
+  destruct (pot_fill_tr_spec tr_eqb act tr_eqb_act fd2 fg2 dic0 tinfo Hnr fuel key sb ks2 sb' Hwb Hbb Hk H2)
+    as [_ [_ [its2 [S2 M2]]]].
+  rewrite S1 in S2. injection S2 as <-. exists its1. auto.
+Qed.
+
+(* two surface environments that give the cells of the parsed table the same own
+   denotation (e.g. because they agree on the surfaces of the deck) *)
+Definition surf_agree (dic0 : list (Z * mcell)) (senv1 senv2 : Z -> P -> bool) : Prop :=
+  forall k c, lookup k dic0 = Some c -> forall p, own_den c senv1 p = own_den c senv2 p.
+
+Lemma spec_den_agree dic0 tinfo senv1 senv2 : surf_agree dic0 senv1 senv2 ->
+  forall fuel key its, spec act fuel dic0 tinfo key = Some its ->
+  Forall (fun it => forall p, i_den it senv1 p = i_den it senv2 p) its.
+Proof.
+  intros Hag. induction fuel as [|f IH]; intros key its H; cbn [spec] in H; [discriminate|].
+  destruct (lookup key dic0) as [cell|] eqn:Ek; [|discriminate].
+  destruct (cfill cell) as [u|].
+  - destruct (spec_each (spec act f dic0 tinfo) (cells_of_universe dic0 u)) as [its0|] eqn:Es; [|discriminate].
+    injection H as <-.
+    assert (H0 : Forall (fun it => forall p, i_den it senv1 p = i_den it senv2 p) its0).
+    { revert its0 Es. induction (cells_of_universe dic0 u) as [|e r IHr]; intros its0 Es; cbn [spec_each] in Es.
+      - injection Es as <-. constructor.
+      - destruct (spec act f dic0 tinfo e) as [a|] eqn:Ea; [|discriminate].
+        destruct (spec_each (spec act f dic0 tinfo) r) as [b|] eqn:Eb; [|discriminate].
+        injection Es as <-. apply Forall_app. split; [exact (IH _ _ Ea)|exact (IHr _ eq_refl)]. }
+    rewrite Forall_forall in *. intros it Hit. apply in_map_iff in Hit. destruct Hit as [it0 [<- Hin]].
+    intros p. cbn [fill_item i_den]. rewrite (Hag _ _ Ek p), (H0 _ Hin). reflexivity.
+  - injection H as <-. constructor; [|constructor]. intros p. cbn [orig_item i_den]. apply (Hag _ _ Ek p).
+Qed.
+End Agree.
